@@ -6,20 +6,20 @@ namespace SnaxVerif.Accfg
 variable (cfg : Cfg)
 
 /-- equal registers and trace, equal environment outside `D` -/
-def EqOff (D : List Var) (u v : St) : Prop :=
-  u.regs = v.regs ∧ u.tr = v.tr ∧ ∀ x, x ∉ D → u.env x = v.env x
+def EqOff (D : Var → Prop) (u v : St) : Prop :=
+  u.regs = v.regs ∧ u.tr = v.tr ∧ ∀ x, ¬ D x → u.env x = v.env x
 
-theorem EqOff.setEnv {D : List Var} {u v : St} (h : EqOff D u v) (x : Var) (val : Int) :
+theorem EqOff.setEnv {D : Var → Prop} {u v : St} (h : EqOff D u v) (x : Var) (val : Int) :
     EqOff D { u with env := Accfg.setEnv u.env x val } { v with env := Accfg.setEnv v.env x val } :=
   ⟨h.1, h.2.1, fun y hy => by simp only [Accfg.setEnv]; split; rfl; exact h.2.2 y hy⟩
 
-theorem map_env_eq {D : List Var} {u v : St} (h : EqOff D u v) (l : List Var) (hl : ∀ x ∈ l, x ∉ D) :
+theorem map_env_eq {D : Var → Prop} {u v : St} (h : EqOff D u v) (l : List Var) (hl : ∀ x ∈ l, ¬ D x) :
     l.map u.env = l.map v.env :=
   List.map_congr_left (fun x hx => h.2.2 x (hl x hx))
 
 /- the same code run on related states gives related states, when it reads nothing in `D` -/
 mutual
-theorem sameS_sim (D : List Var) : (s : Stmt) → (∀ x ∈ readsS s, x ∉ D) → ∀ u v, EqOff D u v →
+theorem sameS_sim (D : Var → Prop) : (s : Stmt) → (∀ x ∈ readsS s, ¬ D x) → ∀ u v, EqOff D u v →
     EqOff D (execS cfg false s u) (execS cfg false s v)
   | .setup a fs, hr, u, v, h => by
       have henv : ∀ p ∈ fs, u.env p.2 = v.env p.2 :=
@@ -59,7 +59,7 @@ theorem sameS_sim (D : List Var) : (s : Stmt) → (∀ x ∈ readsS s, x ∉ D) 
         (fun i x y hxy => sameB_sim D b (fun z hz => hr z (Or.inr (Or.inr (Or.inr hz)))) _ _
           (hxy.setEnv iv (v.env lb + ↑i * v.env step)))
         _ 0 u v h
-theorem sameB_sim (D : List Var) : (b : Block) → (∀ x ∈ readsB b, x ∉ D) → ∀ u v, EqOff D u v →
+theorem sameB_sim (D : Var → Prop) : (b : Block) → (∀ x ∈ readsB b, ¬ D x) → ∀ u v, EqOff D u v →
     EqOff D (execB cfg false b u) (execB cfg false b v)
   | .nil, _, u, v, h => by simpa [execB] using h
   | .cons s r, hr, u, v, h => by
@@ -70,7 +70,7 @@ theorem sameB_sim (D : List Var) : (b : Block) → (∀ x ∈ readsB b, x ∉ D)
 end
 
 /-- executing an extra side-effect-free statement on the right keeps the relation, off its own definitions -/
-theorem extra_sef (D : List Var) (s : Stmt) (hs : sefS s = true) (hD : ∀ x ∈ defsS s, x ∈ D) (u v : St)
+theorem extra_sef (D : Var → Prop) (s : Stmt) (hs : sefS s = true) (hD : ∀ x ∈ defsS s, D x) (u v : St)
     (h : EqOff D u v) : EqOff D u (execS cfg false s v) := by
   have hf := sefS_frame cfg false s hs v v.regs v.tr
   have e : ({ v with regs := v.regs, tr := v.tr } : St) = v := rfl
@@ -82,8 +82,8 @@ theorem extra_sef (D : List Var) (s : Stmt) (hs : sefS s = true) (hD : ∀ x ∈
     rw [envS_frame cfg false s x (fun hm => hx (hD x hm)) v]
     exact h.2.2 x hx
 
-theorem dceRw_sim (D : List Var) (F : Facts) : (b : Block) → ∀ (i : Nat) (b' : Block) (s : Stmt), dceRw F b i = some b' →
-    stmtAtL b.toList i = some s → (∀ x ∈ defsS s, x ∈ D) → (∀ x ∈ readsB b', x ∉ D) →
+theorem dceRw_sim (D : Var → Prop) (F : Facts) : (b : Block) → ∀ (i : Nat) (b' : Block) (s : Stmt), dceRw F b i = some b' →
+    stmtAtL b.toList i = some s → (∀ x ∈ defsS s, D x) → (∀ x ∈ readsB b', ¬ D x) →
     ∀ u v, EqOff D u v → EqOff D (execB cfg false b' u) (execB cfg false b v)
   | .nil, i, b', s, h, _, _, _, _, _, _ => by simp [dceRw] at h
   | .cons t r, 0, b', s, h, hs, hD, hr, u, v, huv => by
@@ -106,8 +106,8 @@ theorem dceRw_sim (D : List Var) (F : Facts) : (b : Block) → ∀ (i : Nat) (b'
         (sameS_sim cfg D t (fun x hx => hr x (Or.inl hx)) u v huv)
 
 mutual
-theorem dceS_pos (D : List Var) : (s : Stmt) → ∀ (k : Nat) (p : List Nat) (F : Facts) (s' : Stmt) (d : Stmt),
-    rewriteS dceRw k p s F = some s' → stmtAtS k p s = some d → (∀ x ∈ defsS d, x ∈ D) → (∀ x ∈ readsS s', x ∉ D) →
+theorem dceS_pos (D : Var → Prop) : (s : Stmt) → ∀ (k : Nat) (p : List Nat) (F : Facts) (s' : Stmt) (d : Stmt),
+    rewriteS dceRw k p s F = some s' → stmtAtS k p s = some d → (∀ x ∈ defsS d, D x) → (∀ x ∈ readsS s', ¬ D x) →
     ∀ u v, EqOff D u v → EqOff D (execS cfg false s' u) (execS cfg false s v)
   | .ifS c t e, k, p, F, s', d, h, hd, hD, hr, u, v, huv => by
       simp only [rewriteS] at h
@@ -162,8 +162,8 @@ theorem dceS_pos (D : List Var) : (s : Stmt) → ∀ (k : Nat) (p : List Nat) (F
   | .await _, _, _, _, _, _, h, _, _, _, _, _, _ => by simp [rewriteS] at h
   | .pure _ _ _, _, _, _, _, _, h, _, _, _, _, _, _ => by simp [rewriteS] at h
   | .call _ _, _, _, _, _, _, h, _, _, _, _, _, _ => by simp [rewriteS] at h
-theorem dceB_pos (D : List Var) : (b : Block) → ∀ (path : List Nat) (F : Facts) (b' : Block) (d : Stmt),
-    rewriteB dceRw path b F = some b' → stmtAtB path b = some d → (∀ x ∈ defsS d, x ∈ D) → (∀ x ∈ readsB b', x ∉ D) →
+theorem dceB_pos (D : Var → Prop) : (b : Block) → ∀ (path : List Nat) (F : Facts) (b' : Block) (d : Stmt),
+    rewriteB dceRw path b F = some b' → stmtAtB path b = some d → (∀ x ∈ defsS d, D x) → (∀ x ∈ readsB b', ¬ D x) →
     ∀ u v, EqOff D u v → EqOff D (execB cfg false b' u) (execB cfg false b v)
   | b, [i], F, b', d, h, hd, hD, hr, u, v, huv => by
       simp only [rewriteB] at h
@@ -198,7 +198,7 @@ theorem dce_trace (path : List Nat) (b b' : Block) (h : applyRule .dce path b = 
   split at hside
   · next d hd =>
     simp only [List.all_eq_true, Bool.not_eq_true', List.contains_eq_mem, decide_eq_false_iff_not] at hside
-    have := dceB_pos cfg (defsS d) b path noFacts b' d h hd (fun x hx => hx)
+    have := dceB_pos cfg (fun x => x ∈ defsS d) b path noFacts b' d h hd (fun x hx => hx)
       (fun x hx hm => hside x hm hx) st st ⟨rfl, rfl, fun _ _ => rfl⟩
     exact ⟨this.1, this.2.1⟩
   · cases hside
